@@ -247,12 +247,12 @@ def run(ctx):
             for (a, b, depth, node) in iso_nodes(d):
                 inner = [p for p in gen.aligned_positions(d) if a + 1 <= p <= b - 1]
                 pairs = [(a + 1, b - 1)] + [tuple(sorted((rng.choice(inner), rng.choice(inner)))) for _ in range(ctx.budget(8, 20))]
-                for (f, t) in pairs:
+                for pi_, (f, t) in enumerate(pairs):
                     if ctx.time_left() < 0:
                         break
-                    # every call of this case is made on the like-named schema without isolating nodes first: always for the
-                    # first document of a schema, now and then later
-                    mirror_now = di == 0 or rng.random() < 0.2
+                    # every call of this case is made on the like-named schema without isolating nodes first: for the first
+                    # cases of the first document of a schema, now and then later
+                    mirror_now = (di == 0 and pi_ < 6) or rng.random() < 0.1
                     if mirror_now:
                         mirror.op(ctx, d, "delete_range", [f, t])
                     # the range delete_range widens [f, t] to (tied exactly to the model, for which Props/C18.lean proves
@@ -369,7 +369,7 @@ def run(ctx):
                     # covered_depths / lift_target / can_split tied exactly to the model (PM/Structure.lean), whose answers
                     # Props/C18.lean proves never to cross an isolating ancestor
                     q = rng.choice(inner)
-                    if di == 0 or rng.random() < 0.2:
+                    if di == 0 or rng.random() < 0.1:
                         mirror.probes(ctx, d, p, q, tas)
                     f_, t_ = min(p, q), max(p, q)
                     stc, cov = outcome(lambda: covered_depths(d.resolve(f_), d.resolve(t_)))
